@@ -117,7 +117,7 @@ class C36(Property):
                     lines.append(f"divide {list_s(vals, rat_s)} {list_s(ws, rat_s)} {list_s(chunks)}")
                     tags.append(("divide(int)", dict(values=vals, weights=ws, k=k), out))
                 except RuntimeError:
-                    pass
+                    ctx.count("divide(int):more-chunks-than-items-raises")
             a = [dyadic(rng, 0, 2, 3) for _ in range(rng.randint(1, 4))]
             b = [dyadic(rng, 0, 2, 3) for _ in range(rng.randint(1, 4))]
             add(f"outer {list_s(a, rat_s)} {list_s(b, rat_s)}", "MultidimensionalDistribution.weights", dict(a=a, b=b),
@@ -163,7 +163,9 @@ class C36(Property):
         import abtem.distributions as D
 
         if c["kind"] == "uniform":
-            d = D.uniform(c["low"], c["high"], c["n"], endpoint=c["endpoint"])
+            d = D.uniform(c["low"], c["high"], c["n"], endpoint=c["endpoint"], ensemble_mean=c.get("ensemble_mean", False))
+            if bool(d.ensemble_mean) != bool(c.get("ensemble_mean", False)):
+                ctx.violation("uniform-ensemble-mean-flag-wrong", c, {})
             n = c["n"]
             v, w = np.asarray(d.values, float), np.asarray(d.weights, float)
             if len(v) != n or len(w) != n or len(d) != n:
@@ -182,7 +184,9 @@ class C36(Property):
             self.check_neg_divide(ctx, c, d)
         else:
             dims = c["dims"]
-            md = D.gaussian(tuple(c["sigma"]) if dims > 1 else c["sigma"][0], tuple(c["n"]) if dims > 1 else c["n"][0], dimension=dims,
+            bc = c.get("broadcast", False)  # one number for all axes (number_to_tuple)
+            md = D.gaussian(c["sigma"][0] if (dims == 1 or bc) else tuple(c["sigma"]), c["n"][0] if (dims == 1 or bc) else tuple(c["n"]), dimension=dims,
+                            ensemble_mean=c.get("ensemble_mean", True),
                             center=tuple(c["center"]) if dims > 1 else c["center"][0],
                             sampling_limit=tuple(c["limit"]) if dims > 1 else c["limit"][0], normalize=c["normalize"])
             facs = md.distributions
@@ -193,9 +197,12 @@ class C36(Property):
                     ctx.violation("gaussian-length-wrong", c, dict(axis=i, len=len(v)))
                     continue
                 scale = max(1.0, abs(mu), s * L)
-                if n > 1 and (not np.allclose(v + v[::-1], 2 * mu, rtol=0, atol=1e-12 * scale) or abs(v[0] - (mu - s * L)) > 1e-12 * scale
-                              or abs(v[-1] - (mu + s * L)) > 1e-12 * scale or np.any(np.abs(v - mu) > s * L * (1 + 1e-12) + 1e-300)):
-                    ctx.violation("gaussian-values-not-symmetric-within-limit", c, dict(axis=i, values=v.tolist()))
+                ends_ok = n == 1 or (abs(v[0] - (mu - s * L)) <= 1e-12 * scale and abs(v[-1] - (mu + s * L)) <= 1e-12 * scale)
+                if not (np.allclose(v + v[::-1], 2 * mu, rtol=0, atol=1e-12 * scale) and ends_ok
+                        and not np.any(np.abs(v - mu) > s * L * (1 + 1e-12) + 1e-300)):
+                    ctx.violation(f"gaussian-values-not-symmetric-within-limit:n={'1' if n == 1 else '>1'}", c, dict(axis=i, values=v.tolist()))
+                if bool(f.ensemble_mean) != bool(c.get("ensemble_mean", True)):
+                    ctx.violation("gaussian-ensemble-mean-flag-wrong", c, dict(axis=i))
                 prof = np.exp(-0.5 * (v - mu) ** 2 / s ** 2)
                 ratio = w / prof
                 if not np.allclose(ratio, ratio[0], rtol=1e-12, atol=0):
@@ -227,46 +234,65 @@ class C36(Property):
                 if not np.array_equal(nv, -V) or not np.array_equal(np.asarray((-md).weights), W):
                     ctx.violation("multidimensional-negation-wrong", c, {})
             self.check_neg_divide(ctx, c, facs[0])
+            if dims == 1:  # MultidimensionalDistribution.divide (what gaussian(...) objects and EnsembleFromDistributions call), eager and lazy
+                self.check_neg_divide(ctx, c, md, md=True)
 
-    def check_neg_divide(self, ctx, c, d):
-        v, w = np.asarray(d.values, float), np.asarray(d.weights, float)
+    def check_neg_divide(self, ctx, c, d, md=False):
+        import abtem.distributions as D
+
+        v, w = np.array(d.values, float, copy=True), np.array(d.weights, float, copy=True)  # copies: the receiver must not be written to
         m = -d
         if not np.array_equal(np.asarray(m.values, float), -v) or not np.array_equal(np.asarray(m.weights, float), w) \
                 or m.ensemble_mean != d.ensemble_mean or type(m) is not type(d):
             ctx.violation("negation-changes-more-than-the-sign-of-values", c, dict(values=np.asarray(m.values).tolist()))
-        if not np.array_equal(np.asarray(d.values, float), v):
+        if not np.array_equal(np.asarray(d.values, float), v) or not np.array_equal(np.asarray(d.weights, float), w):
             ctx.violation("negation-mutates-the-original", c, {})
         n = len(v)
-        for ch in c.get("chunks", []):
-            try:
-                blocks = d.divide(tuple(ch) if isinstance(ch, list) else ch, lazy=False)
-            except RuntimeError:
-                if isinstance(ch, int) and ch > n:
-                    continue
-                raise
-            bv = np.concatenate([np.asarray(b.values, float) for b in blocks]) if len(blocks) else np.array([])
-            bw = np.concatenate([np.asarray(b.weights, float) for b in blocks]) if len(blocks) else np.array([])
-            sizes = [len(b) for b in blocks]
-            if not np.array_equal(bv, v) or not np.array_equal(bw, w):
-                ctx.violation("divide-does-not-partition-values-and-weights", c, dict(chunks=ch, sizes=sizes))
-            if isinstance(ch, list) and sizes != ch:
-                ctx.violation("divide-block-sizes-differ-from-chunks", c, dict(chunks=ch, sizes=sizes))
-            if isinstance(ch, int) and n and (len(sizes) != ch or max(sizes) - min(sizes) > 1):
-                ctx.violation("divide-int-blocks-not-equal-sized", c, dict(chunks=ch, sizes=sizes))
-            if any(b.ensemble_mean != d.ensemble_mean for b in blocks):
-                ctx.violation("divide-drops-ensemble-mean", c, {})
+        cands = [(d, "md" if md else "dist")]
+        if not md:  # the same numbers with weights given as a tuple / a list (docstring: "sequence of float")
+            cands.append((D.from_values(v.copy(), weights=tuple(w.tolist())), "tuple-weights"))
+            cands.append((D.from_values(v.tolist(), weights=w.tolist()), "list-weights"))
+        for dd, tag in cands:
+            for ch in c.get("chunks", []):
+                for lazy in (False, True):
+                    try:
+                        blocks = dd.divide(tuple(ch) if isinstance(ch, list) else ch, lazy=lazy)
+                        if lazy:
+                            blocks = blocks.compute()
+                    except RuntimeError:
+                        if isinstance(ch, int) and ch > n:
+                            ctx.count("divide:int-more-chunks-than-items-raises")
+                            continue
+                        raise
+                    blocks = list(blocks)
+                    bv = np.concatenate([np.asarray(b.values, float) for b in blocks]) if len(blocks) else np.array([])
+                    bw = np.concatenate([np.asarray(b.weights, float) for b in blocks]) if len(blocks) else np.array([])
+                    sizes = [len(b) for b in blocks]
+                    sub = f"{tag}:{'lazy' if lazy else 'eager'}"
+                    if not np.array_equal(bv, v) or not np.array_equal(bw, w):
+                        ctx.violation(f"divide-does-not-partition-values-and-weights:{sub}", c, dict(chunks=ch, sizes=sizes))
+                    if isinstance(ch, list) and sizes != ch:
+                        ctx.violation(f"divide-block-sizes-differ-from-chunks:{sub}", c, dict(chunks=ch, sizes=sizes))
+                    if isinstance(ch, int) and n and (len(sizes) != ch or max(sizes) - min(sizes) > 1):
+                        ctx.violation(f"divide-int-blocks-not-equal-sized:{sub}", c, dict(chunks=ch, sizes=sizes))
+                    if any(b.ensemble_mean != dd.ensemble_mean for b in blocks):
+                        ctx.violation(f"divide-drops-ensemble-mean:{sub}", c, {})
+                    ctx.count(f"divide:{sub}")
 
     def gen_case(self, rng):
         if rng.random() < 0.4:
-            c = dict(gen_uniform(rng), kind="uniform")
+            c = dict(gen_uniform(rng), kind="uniform", ensemble_mean=rng.random() < 0.5)
             n = c["n"]
         else:
             dims = rng.choice([1, 1, 2, 2, 3, 4])
             gs = [gen_gauss(rng, big=dims <= 2) for _ in range(dims)]
             c = dict(kind="gaussian", dims=dims, sigma=[g["sigma"] for g in gs], limit=[g["limit"] for g in gs],
-                     center=[g["center"] for g in gs], n=[g["n"] for g in gs], normalize=gs[0]["normalize"])
+                     center=[g["center"] for g in gs], n=[g["n"] for g in gs], normalize=gs[0]["normalize"],
+                     ensemble_mean=rng.random() < 0.7)
+            if dims >= 2 and rng.random() < 0.3:  # one number for every axis
+                c.update(broadcast=True, sigma=[c["sigma"][0]] * dims, n=[c["n"][0]] * dims)
             n = c["n"][0]
-        c["chunks"] = [gen_chunks(rng, n) for _ in range(2) if n] + ([rng.randint(1, n)] if n else [])
+        c["chunks"] = [gen_chunks(rng, n) for _ in range(2) if n] + ([rng.randint(1, n)] if n else []) + ([n + 1] if n and rng.random() < 0.1 else [])
         return c
 
     def run_case(self, ctx, c):
